@@ -192,11 +192,14 @@ Proof.
   unfold C15_spec.promised. intro P.
   apply andb_true_iff in P as [P PV]. apply andb_true_iff in P as [P PR]. apply andb_true_iff in P as [P PA].
   apply andb_true_iff in P as [PC PS]. apply negb_true_iff in PV.
-  destruct c as [|ci cs|ci cs]; try discriminate. apply andb_true_iff in PC as [PN PC].
-  assert (A : exists k, exch_auth cl r (Basic ci cs) = Some k).
-  { destruct (sec_ok_found _ _ _ PC) as (k & F & S). exists k. destruct r; cbn.
-    - unfold auth_exch_prov. cbn. now rewrite PC.
-    - unfold verify_client_leg. cbn. rewrite PN, F, PC. now destruct (c_auth k). }
+  assert (A : exists k, exch_auth cl r c = Some k).
+  { destruct c as [|ci cs|ci cs|ci cs cf|w cf]; try discriminate;
+      apply andb_true_iff in PC as [PC PM]; apply andb_true_iff in PC as [PN PC];
+      destruct (sec_ok_found _ _ _ PC) as (k & F & S); rewrite F in PM; exists k; destruct r; cbn;
+      try (unfold auth_exch_prov; cbn; now rewrite PC);
+      unfold auth_exch_leg, verify_client_leg; cbn; rewrite PN, F;
+      destruct (c_auth k) eqn:AK; try congruence; rewrite PC, AK; reflexivity. }
+  clear PC.
   destruct A as [k A].
   destruct (subj_live_read _ _ _ PS) as (id & ssub & RS & LS & _).
   assert (AR : exists aid asub atyp, actor_read g actor = Some (aid, asub, atyp) /\
@@ -206,7 +209,7 @@ Proof.
       exists aid, asub, atyp. rewrite RA, LA. split; [reflexivity|apply andb_false_r].
     - exists NoId, "", TAbsent. split; reflexivity. }
   destruct AR as (aid & asub & atyp & RA & LA).
-  unfold exchange. fold (exch_auth cl r (Basic ci cs)). fold (actor_read g actor).
+  unfold exchange. fold (exch_auth cl r c). fold (actor_read g actor).
   assert (NA : match r, styp with Prov, TAbsent => true | _, _ => false end = false).
   { destruct r; [|reflexivity]. destruct styp; try reflexivity. discriminate. }
   rewrite NA, A, RS, RA, LS. cbn [negb]. rewrite LA, PV.
